@@ -71,6 +71,7 @@ UNSUPPORTED = [
     "SELECT a FROM t;",
     "UPDATE t SET a = 1;",
     "COMMENT ON TABLE t IS 'x';",
+    "COMMENT ON TABLE t IS 'step 1) load';",
     "INSERT INTO t VALUES (1, 2);",
     "GRANT ALL ON t TO u;",
     "USE db;",
@@ -193,11 +194,15 @@ def c_lines(g1: int, g2: int, g3: int, indent: int, blank: bool, crlf: bool) -> 
 COMMENT_TEXTS = [" note", " a, b (c)", " drop this;", " use b instead of a", " insert into t", " CREATE TABLE z (q int)",
                  " x = 1", " it is 100% ok", ";", " GO", " delete me", " alter later"]
 NCT = len(COMMENT_TEXTS)
-BASE_SCRIPT = ["CREATE TABLE t (", "a int,", "b varchar(10) NOT NULL,", "c int", ");", "CREATE SEQUENCE q START 1;"]
+BASE_SCRIPTS = [["CREATE TABLE t (", "a int,", "b varchar(10) NOT NULL,", "c int", ");", "CREATE SEQUENCE q START 1;"],
+                # lines that carry quoted literals (a double quote inside single quotes, an apostrophe inside double quotes)
+                ["CREATE TABLE t (", "a varchar(3) DEFAULT '\"',", "b varchar(10) COMMENT \"it's\",", "c int DEFAULT 'x'", ");", "CREATE SEQUENCE q START 1;"]]
+BASE_SCRIPT = BASE_SCRIPTS[env_int("VF_BASE", 0)]
 BASE_RESULT = run_lines(BASE_SCRIPT)
 NBL = len(BASE_SCRIPT)
 KIND = env_int("VF_KIND", 0)
-KINDS = ["line_dash", "line_hash", "line_block", "trail_dash", "trail_block", "multi_block", "multi_block_banner", "trail_dash_glued"]
+KINDS = ["line_dash", "line_hash", "line_block", "trail_dash", "trail_block", "multi_block", "multi_block_banner", "trail_dash_glued",
+         "line_block_trailing_blank"]
 
 
 def _with_comment(kind, at, text):
@@ -208,6 +213,9 @@ def _with_comment(kind, at, text):
         return s[:at] + ["#" + text] + s[at:], ["#" + text]
     if kind == "line_block":
         return s[:at] + ["/*" + text + " */"] + s[at:], [text + " "]
+    if kind == "line_block_trailing_blank":
+        tail = [" ", "  ", " ;", "\\t"][len(text) % 4]
+        return s[:at] + ["/*" + text + " */" + tail] + s[at:], [text + " */" + tail]
     if kind == "trail_dash":
         a = at % NBL
         return s[:a] + [s[a] + " --" + text] + s[a + 1:], [text]
@@ -258,7 +266,7 @@ def c_comment(at: int, ti: int) -> bool:
 
 # ---------------------------------------------------------------- C14 rerun ------------------
 NCT_RERUN = env_int("VF_NCT", NCT)
-RERUN_LINES = [0, 7, 13, 17, 19]  # CREATE TABLE / SELECT / GO / blank / SET as the last line
+RERUN_LINES = [0, 7, 14, 18, 20]  # CREATE TABLE / SELECT / GO / blank / SET as the last line
 
 
 def c_rerun(at: int, ti: int, j: int) -> bool:
